@@ -2,7 +2,9 @@ package main
 
 import (
 	"fmt"
+	"os"
 	"path/filepath"
+	"strings"
 
 	"verifharness/internal/dec"
 	"verifharness/internal/ev"
@@ -81,4 +83,60 @@ func forCases(run *ev.Run, cc caseCfg, fn func(b *built)) {
 // testKey returns the path of a key file shipped with the repository's tests.
 func testKey(name string) string {
 	return filepath.Join(*flagRepo, "internal", "sign", "testdata", name)
+}
+
+// mutateSources rewrites, in place, the bytes of up to max regular source
+// files of the case (same path; same length for every other file, different
+// length otherwise) and restores their mtimes. It models a second build in the
+// same process after the sources changed: anything nfpm cached per source path
+// would now be stale.
+func mutateSources(c *gen.Case, max int) int {
+	n := 0
+	for _, nd := range c.Tree.Sorted() {
+		if nd.Kind != "file" || !strings.HasPrefix(nd.Rel, "src/") {
+			continue
+		}
+		p := c.Tree.Abs(nd.Rel)
+		b, err := os.ReadFile(p)
+		if err != nil {
+			continue
+		}
+		nb := make([]byte, len(b))
+		for i := range b {
+			nb[i] = b[i] ^ 0x5a
+		}
+		if n%2 == 1 || len(nb) == 0 {
+			nb = append(nb, []byte(fmt.Sprintf("changed-%d\n", n))...)
+		}
+		st, err := os.Stat(p)
+		if err != nil {
+			continue
+		}
+		_ = os.Chmod(p, 0o600)
+		if err := os.WriteFile(p, nb, 0o600); err != nil {
+			continue
+		}
+		_ = os.Chmod(p, nd.Perm)
+		_ = os.Chtimes(p, st.ModTime(), st.ModTime())
+		n++
+		if n >= max {
+			break
+		}
+	}
+	return n
+}
+
+// rebuild packages the (possibly changed) case again in all its formats.
+func rebuild(run *ev.Run, prop string, b *built, fmts []string, useCLI bool) *built {
+	nb := &built{c: b.c, yaml: b.yaml, raw: map[string][]byte{}, pkgs: map[string]*dec.Package{}, errs: map[string]error{}}
+	for _, f := range fmts {
+		res := buildYAML(nb.yaml, f)
+		if res.Panic != "" || res.Err != nil {
+			run.Violate(prop+"/"+f+"/rebuild-error", map[string]any{"case": b.c.Index, "error": fmt.Sprint(res.Err, ev.Short(res.Panic, 300))})
+			continue
+		}
+		nb.raw[f] = res.Bytes
+		nb.pkgs[f] = dec.Decode(f, res.Bytes, useCLI)
+	}
+	return nb
 }
